@@ -27,7 +27,7 @@ NOTES = {
             'no side condition on the history (UpdateTable can not re-type a key attribute: fix c854008); index ItemCount = number of indexed items'),
     'C05': ('condition locality (only the item under the request key is read) and atomicity of refused writes, for every interpreter', ''),
     'C08': ('every failing single-request data operation returns the state unchanged; writes are all-or-nothing over base table and indexes; rejected batches are rejected before any write; every failing BatchWriteItem of any reachable client (no failure emulated) has changed nothing', 'batch writes that succeed partially under an emulated internal-server failure report the rest as unprocessed (not an error result)'),
-    'C15': ('active failure => configured error and unchanged state for every single data call; toggles change only the flag; activate/calls/deactivate is the identity; a BatchWriteItem under the internal-server failure returns every request of every table as unprocessed and changes nothing, for any batch; under the deprecated forced failure it fails as a whole whatever it holds; the identity also holds for episodes that contain batch writes', 'TransactWriteItems answers ErrForcedFailure whatever condition is configured (known finding)'),
+    'C15': ('active failure => configured error and unchanged state for every single data call; toggles change only the flag; activate/calls/deactivate is the identity; a BatchWriteItem under the internal-server failure returns every request of every table as unprocessed and changes nothing, for any batch; under the deprecated forced failure it fails as a whole whatever it holds; the identity also holds for episodes that contain batch writes', '-'),
     'C13': ('key injectivity (hash-only S/N schemas; dot-free hash values), a key is rejected iff a key attribute is missing or ill-typed, every stored item is filed under the key string of its own key attributes (reachable states of histories whose updates keep key attributes), the schema check demands key types S/N/B and the key attributes of every table have one in every reachable state',
             'known findings: "." separator collisions (C13-1), UpdateItem may rewrite a key attribute (C13-2, the existing suite relies on it), BatchGetItem keeps malformed keys as unprocessed (C13-3)'),
     'C20': ('registration key equality <=> same word sequence under the four white-space characters of the language, for every table name and expression (length-prefixed key, injective); exact dispatch; fallback on a miss; update miss = Unsupported with the table untouched', ''),
